@@ -64,6 +64,7 @@ func runC16(p *core.Prog, r *core.Result) {
 	r.Decided = []string{
 		"R16.1 the old/new sides of every diff node are the first/second value argument of the function that builds it (never a swapped copy), and the diff functions pass their sides through in order",
 		"R16.2 the length-normalising swap of the sequence differ is undone when edits are recorded: elements taken from the second operand are 'add' when not reversed and 'delete' when reversed (conversely for the first), each with the cursor of its own operand",
+		"R16.6 when the recorded route is cut short and the search restarts, each operand is trimmed by its own consumption counter (the counter incremented exactly where elements of that operand are recorded)",
 		"R16.3 mapping diffs: delete exactly on keys of old missing in new, replace exactly on a non-empty recursive diff of the two values under one key, add exactly on keys of new missing in old",
 		"R16.4 the rebuild-reason table lists exactly the keys under which the unpickler stores environment parts",
 		"R16.5 the diff is nil exactly on the equal edge; every other successful return is a non-nil node",
@@ -324,6 +325,154 @@ func checkRecordSeq(p *core.Prog, r *core.Result, recordSeq, extend *ssa.Functio
 		}
 	}
 	// reverse is set exactly when the operands were swapped: in diffSlice the store to differ.reverse is the swap flag
+
+	// ---- R16.6 when the recorded route is cut short, each operand is trimmed by its own consumption counter
+	// operand consumed in a block: the source of the extend call there (common edits consume both)
+	consumes := map[string]map[*ssa.BasicBlock]bool{"a": {}, "b": {}}
+	for _, c := range calls {
+		args := c.Common().Args
+		for _, rev := range []bool{false, true} {
+			fv, ok := under(args[2], rev, nil)
+			if !ok {
+				continue
+			}
+			blk := c.(ssa.Instruction).Block()
+			if core.LoadOfField(fv, pkgDiff, "differ", "a") {
+				consumes["a"][blk] = true
+			}
+			if core.LoadOfField(fv, pkgDiff, "differ", "b") {
+				consumes["b"][blk] = true
+			}
+		}
+	}
+	_ = consumes
+	// counters: the phis of one source variable (go/ssa records the variable's name) and its "+1" increments
+	webOf := func(v ssa.Value) string {
+		for depth := 0; depth < 8; depth++ {
+			switch x := v.(type) {
+			case *ssa.Phi:
+				if _, isInt := x.Type().Underlying().(*types.Basic); isInt && x.Comment != "" {
+					return x.Comment
+				}
+				return ""
+			case *ssa.BinOp:
+				if k, ok := core.ConstInt(x.Y); ok && k == 1 && x.Op == token.ADD {
+					v = x.X
+					continue
+				}
+				return ""
+			default:
+				return ""
+			}
+		}
+		return ""
+	}
+	incs := map[string][]*ssa.BinOp{}
+	core.Instrs(recordSeq, func(in ssa.Instruction) {
+		if x, ok := in.(*ssa.BinOp); ok && x.Op == token.ADD {
+			if k, ok := core.ConstInt(x.Y); ok && k == 1 {
+				if w := webOf(x); w != "" {
+					incs[w] = append(incs[w], x)
+				}
+			}
+		}
+	})
+	counterOf := func(v ssa.Value) string {
+		// strip +/- constants
+		for {
+			b, ok := v.(*ssa.BinOp)
+			if !ok || (b.Op != token.ADD && b.Op != token.SUB) {
+				break
+			}
+			if _, isConst := core.ConstInt(b.Y); !isConst {
+				break
+			}
+			if b.Op == token.ADD {
+				if k, _ := core.ConstInt(b.Y); k == 1 {
+					break // an increment belongs to the web itself
+				}
+			}
+			v = b.X
+		}
+		web := webOf(v)
+		if web == "" {
+			return ""
+		}
+		incBlocks := func(w string) map[*ssa.BasicBlock]bool {
+			m := map[*ssa.BasicBlock]bool{}
+			for _, inc := range incs[w] {
+				m[inc.Block()] = true
+			}
+			return m
+		}
+		blocks := incBlocks(web)
+		if len(blocks) == 0 {
+			return ""
+		}
+		// the cursors are known from the comparisons with the route points (px with point.x, py with point.y); a
+		// counter belongs to the operand whose cursor is incremented in exactly the same places
+		for cv, opnd := range cursor {
+			cw := webOf(cv)
+			if cw == "" {
+				continue
+			}
+			if cw == web {
+				return opnd
+			}
+			cb := incBlocks(cw)
+			same := len(cb) == len(blocks)
+			for b := range blocks {
+				if !cb[b] {
+					same = false
+				}
+			}
+			if same {
+				return opnd
+			}
+		}
+		return "?"
+	}
+	nTrim := 0
+	core.Instrs(recordSeq, func(in ssa.Instruction) {
+		st, ok := in.(*ssa.Store)
+		if !ok {
+			return
+		}
+		opnd := ""
+		if core.IsField(st.Addr, pkgDiff, "differ", "a") {
+			opnd = "a"
+		} else if core.IsField(st.Addr, pkgDiff, "differ", "b") {
+			opnd = "b"
+		}
+		if opnd == "" {
+			return
+		}
+		var lo ssa.Value
+		switch v := st.Val.(type) {
+		case *ssa.Call:
+			// slice(x, lo, hi) helper
+			if len(v.Call.Args) >= 3 && core.LoadOfField(v.Call.Args[0], pkgDiff, "differ", opnd) {
+				lo = v.Call.Args[1]
+			}
+		case *ssa.Slice:
+			lo = v.Low
+		}
+		if lo == nil {
+			return
+		}
+		nTrim++
+		construct := "diff.(*differ).recordSeq#restart-trims-" + opnd
+		got := counterOf(lo)
+		switch got {
+		case opnd:
+			r.OK("R16.6", construct, p.InstrPos(st), "operand %s is trimmed by the number of its own elements already recorded", opnd)
+		case "", "?":
+			r.Unk("R16.6", construct, p.InstrPos(st), "the trimming offset of operand %s is not recognised as a consumption counter", opnd)
+		default:
+			r.Bad("R16.6", construct, p.InstrPos(st), "when the search restarts, operand %s is trimmed by the consumption counter of operand %s: for sequences of different length (the two counters differ by the length difference at a restart, which needs more than two million route points) elements of %s are recorded twice and the edits no longer reproduce that side", opnd, got, opnd)
+		}
+	})
+	r.Analysed["recordSeq_restart_trims"] = nTrim
 }
 
 func checkMappingDiff(p *core.Prog, r *core.Result, diffMapping, DiffDepth *ssa.Function) {
@@ -614,10 +763,22 @@ func checkReasonTable(p *core.Prog, r *core.Result) {
 	// unpickler keys
 	keys := map[string]bool{}
 	for _, u := range funcsConvertedTo(p, pkgPickle, "UnpicklerFunc") {
-		for _, c := range core.Calls(u) {
-			if core.IsMethod(c, pkgStar, "Dict", "SetKey") {
-				if s, ok := core.ConstString(c.Common().Args[1]); ok {
-					keys[s] = true
+		// the unpickler and the helpers of its package it calls (a case may be moved into a function of its own)
+		for f := range staticClosure(p, u) {
+			if f.Pkg != u.Pkg {
+				continue
+			}
+			for _, c := range core.Calls(f) {
+				if !core.IsMethod(c, pkgStar, "Dict", "SetKey") {
+					continue
+				}
+				// every string constant the key can be: directly, or through a table of entries that is looped over
+				for v := range core.BackwardSlice(c.Common().Args[1], core.SliceOpts{Stores: true}) {
+					if cs, isConst := v.(*ssa.Const); isConst {
+						if s, ok := core.ConstString(cs); ok {
+							keys[s] = true
+						}
+					}
 				}
 			}
 		}
